@@ -2,6 +2,7 @@
   Props/C19 — back-references match a copy of what their group captured.
 -/
 import RxModel.Model.Compile
+import RxModel.Proofs.LeafLemmas
 namespace Rx.C19
 open Rx
 
@@ -9,7 +10,7 @@ open Rx
 theorem sameText_spec (ctx : Ctx) (l p s : Nat) :
     sameText ctx l p s = true ↔
       ∀ k, k < l → ∃ a b, ctx.input[p + k]? = some a ∧ ctx.input[s + k]? = some b ∧ ctx.eqAt a b = true := by
-  sorry
+  exact Leaf.sameText_iff ctx l p s
 
 /-- the back-reference generator, given the recorded span of its group:
     a copy of the captured text must follow (then it is consumed), the state is never changed -/
@@ -17,19 +18,34 @@ theorem backref_copy (ctx : Ctx) (g p : Nat) (st : St) (hg : g < st.startBr.leng
     (hs : getO st.startBr g = some s) (he : getO st.endBr g = some e) (hse : s < e) :
     backrefGen ctx g p st =
       if p + (e - s) ≤ ctx.len ∧ sameText ctx (e - s) p s = true then Step.once (p + (e - s)) st else Step.nil st := by
-  sorry
+  unfold backrefGen
+  have h1 : ¬ (g ≥ st.startBr.length) := by omega
+  have h2 : (s == e) = false := by simp; omega
+  have h3 : ¬ (e < s) := by omega
+  simp only [h1, if_false, hs, he, h2, h3, Bool.false_eq_true]
+  by_cases h4 : p + (e - s) ≤ ctx.len
+  · have : ¬ (p + (e - s) - 1 ≥ ctx.len) := by omega
+    simp [h4, this]
+  · have : (p + (e - s) - 1 ≥ ctx.len) := by omega
+    simp [h4, this]
 
 /-- a group that captured the empty string: the back-reference matches the empty string -/
 theorem backref_empty (ctx : Ctx) (g p : Nat) (st : St) (hg : g < st.startBr.length) (s : Nat)
     (hs : getO st.startBr g = some s) (he : getO st.endBr g = some s) :
     backrefGen ctx g p st = Step.once p st := by
-  sorry
+  unfold backrefGen
+  have h1 : ¬ (g ≥ st.startBr.length) := by omega
+  simp [h1, hs, he]
 
 /-- a group that has not participated in the match: the back-reference matches the empty string -/
 theorem backref_unset (ctx : Ctx) (g p : Nat) (st : St) (hg : g < st.startBr.length)
     (h : getO st.startBr g = none ∨ getO st.endBr g = none) :
     backrefGen ctx g p st = Step.once p st := by
-  sorry
+  unfold backrefGen
+  have h1 : ¬ (g ≥ st.startBr.length) := by omega
+  rcases h with h | h
+  · simp [h1, h]
+  · cases getO st.startBr g <;> simp [h1, h]
 
 /-- `\N` followed by digits: one more digit is taken exactly when the longer number still does not
     exceed the number of groups opened so far -/
@@ -37,23 +53,33 @@ theorem backrefDigits_step (c : PC) (parens f idx n : Nat) (hlt : idx < c.len) (
     backrefDigits c parens (f + 1) idx n =
       if n * 10 + (c.at idx - 48) > parens - 1 then (idx, n)
       else backrefDigits c parens f (idx + 1) (n * 10 + (c.at idx - 48)) := by
-  sorry
+  simp [backrefDigits, hlt, hd]
 
 theorem backrefDigits_stop (c : PC) (parens f idx n : Nat) (h : ¬ (idx < c.len ∧ isDigit (c.at idx) = true)) :
     backrefDigits c parens (f + 1) idx n = (idx, n) := by
-  sorry
+  have : (decide (idx < c.len) && isDigit (c.at idx)) = false := by simpa using h
+  simp [backrefDigits, this]
 
 /-- the number never exceeds the number of groups opened so far (if the first digit did not) -/
 theorem backrefDigits_le (c : PC) (parens f idx n : Nat) (hn : n ≤ parens - 1) :
     (backrefDigits c parens f idx n).2 ≤ parens - 1 ∧ idx ≤ (backrefDigits c parens f idx n).1 := by
-  sorry
+  induction f generalizing idx n with
+  | zero => simp [backrefDigits, hn]
+  | succ f ih =>
+    simp only [backrefDigits]
+    split
+    · split
+      · exact ⟨hn, Nat.le_refl _⟩
+      · have := ih (idx + 1) (n * 10 + (c.at idx - 48)) (by omega)
+        exact ⟨this.1, by omega⟩
+    · exact ⟨hn, Nat.le_refl _⟩
 
 /-- a back-reference is accepted only outside brackets, only in the XPath dialect, and only to a
     group that is already closed -/
 theorem escape_backref_valid (c : PC) (s s' : PS) (inBr : Bool) (n : Nat)
     (h : escape c s inBr = .ok (.backref n) s') :
     inBr = false ∧ c.fl.xsd = false ∧ n ∈ s.captures ∧ s'.hasBackrefs = true ∧ 1 ≤ n := by
-  sorry
+  exact Leaf.escape_backref c s s' inBr n h
 
 example : backrefGen { input := [97, 98, 97, 98], caseBlind := false, multiLine := false, hasBackrefs := true, maxParens := 2, lower := id }
     1 2 { startBr := [none, some 0], endBr := [none, some 2] } = Step.once 4 { startBr := [none, some 0], endBr := [none, some 2] } := by rfl
